@@ -1,0 +1,9 @@
+//go:build verif
+
+package linereader
+
+import "io"
+
+// VerifSetInput redirects all line reads of the UI to rd. The package-level
+// reader is bound to os.Stdin at init time and cannot be redirected otherwise.
+func VerifSetInput(rd io.Reader) { r = newLineReader(rd) }
